@@ -164,6 +164,7 @@ Json generate(const std::string& tier, uint64_t seed, uint64_t index) {
   }
   sc.set("consumer", script);
   sc.set("options_rv", rng.chance(0.1) ? (long)(1 + rng.below(5)) : 0L);
+  sc.set("c_party", rng.chance(0.2));      // the consumer is a C callback table behind the library's C wrapper (api/c)
   return sc;
 }
 
@@ -198,6 +199,7 @@ SolReadConfig config_of(const Json& sc) {
   c.nvars = (int)sc["declared"]["nvars"].as_int(); c.ncons = (int)sc["declared"]["ncons"].as_int(); c.nlcons = (int)sc["declared"]["nlcons"].as_int();
   for (auto& st : sc["consumer"].arr()) { ConsumerStep s; s.mode = st["mode"].as_str(); s.k = (int)st["k"].as_int(); c.script.push_back(s); }
   c.options_rv = (int)sc["options_rv"].as_int(0);
+  c.c_party = sc["c_party"].as_bool();
   return c;
 }
 
